@@ -102,6 +102,34 @@ theorem openIndex_eager (F : FS) (vol : Bool) (opts : Opts) :
       show (applyLog a _).eager = eg
       rw [applyLog_eager]; exact h1
 
+theorem fail_eager (db : DB) (w : String) : (fail db w).eager = db.eager := by
+  unfold fail; split <;> rfl
+
+theorem loadOne_eager (st : DB × List (Key × Rec)) (kr : Key × Rec) : (loadOne st kr).1.eager = st.1.eager := by
+  unfold loadOne
+  repeat' split
+  all_goals first | rfl | exact fail_eager _ _
+
+theorem loadAll_eager (db : DB) : (loadAll db).eager = db.eager := by
+  unfold loadAll
+  have : ∀ (l : List (Key × Rec)) (st : DB × List (Key × Rec)), (l.foldl loadOne st).1.eager = st.1.eager := by
+    intro l
+    induction l with
+    | nil => intro st; rfl
+    | cons x t ih => intro st; simp only [List.foldl_cons]; exact (ih _).trans (loadOne_eager st x)
+  have h := this db.index (db, [])
+  dsimp only
+  split <;> exact h
+
+/-- the ghost field of the store NewDBExt builds -/
+theorem openDB_eager (F : FS) (vol load : Bool) (opts : Opts) : (openDB F vol load opts eg).eager = eg := by
+  unfold openDB
+  dsimp only
+  cases load
+  · exact openIndex_eager F vol opts
+  · simp only [↓reduceIte]
+    exact (loadAll_eager _).trans (openIndex_eager F vol opts)
+
 /-- the state `NewDBidx` is in just before `cleanupold`, and the data files it marks as used -/
 theorem openIndex_used (F : FS) (vol : Bool) (opts : Opts) :
     ∃ dbB used, openIndex { fs := F, volatile := vol, opts := opts, eager := eg } = cleanupold dbB used ∧
